@@ -254,6 +254,13 @@ INFO = {
     "C19-m12": ("C19", "IsOneByteStuffing set after the skipper was consulted", "a packet with adaptation_field_length 0 and a predicate (or call log) looking at that field"),
     "C20-m11": ("C20", "isPSIComplete: > instead of >= (with the programme map kept by Rewind)", "a PAT filling its packet exactly, a PMT after it, Rewind after >= 1 NextData"),
     "C20-m12": ("C20", "Rewind skipped when nothing was demuxed since the last one, flag cleared by NextData only", "two Rewinds with only NextPacket calls in between"),
+    # round 9 (six properties, a fresh session; same brief as the task statement: something specific needed to manifest)
+    "C06-m13": ("C06", "isSameAsPrevious compares payload lengths instead of bytes (independent rediscovery of C06-m2)", "exactly 15 lost packets with equal payload lengths on both sides of the gap, continuation packets after it: spliced unit"),
+    "C07-m13": ("C07", "NextData end-of-stream flush rewritten as a for-clause loop: break instead of continue on a parse error (independent rediscovery of C07-m1)", "stream ending with an unparseable pending unit on a lower PID and a valid pending unit on a higher PID"),
+    "C09-m13": ("C09", "parsePSISection checks the CRC_32 only when section_syntax_indicator is set", "a corrupted TOT with section_syntax_indicator 0 (as EN 300 468 prescribes), or a corruption clearing that bit in another table"),
+    "C13-m13": ("C13", "hasCRC32: t <= PSITableIDEITEnd became t <", "an EIT with table_id 0x6f (last schedule variant): the CRC bytes are read as an event"),
+    "C16-m13": ("C16", "adaptation field transport_private_data read with NextBytesNoCopy (aliases the packet read buffer)", "a returned packet with non-empty private data and at least one later packet read on the same Demuxer"),
+    "C19-m13": ("C19", "parsePacket consults the PacketSkipper only inside the HasPayload branch", "adaptation-only packets selected by the predicate, observed through NextPacket"),
 }
 REVERTS = {
     "R01": "C12", "R02": "C14", "R03": "C14", "R04": "C18", "R05": "C17", "R06": "C04", "R07": "C11", "R08": "C05", "R09": "C06", "R13": "C08", "R14": "C04",
